@@ -39,6 +39,7 @@ func constName(v ssa.Value) string {
 
 // C13: CFF structures and numbers survive write/read.
 func propC13(w *World, r *Report) {
+	defer RunCacheParam(w, r, "/cff")
 	defer runDeadAccIn(w, r, "/cff")
 	defer RunSearchMonotone(w, r, "/cff")
 	e := NewEffects(w)
